@@ -254,7 +254,7 @@ def xliqLine (s : HistState) (t : List String) : Option String :=
       if auth = 2 then pure "err AccountNotSigner"
       else if auth = 1 then pure "err MissingOrInvalidDelegate"
       else if auth = 4 then pure "err ConstraintAddress"   -- the position belongs to another pool (C15)
-      else if auth = 3 then pure "err ConstraintRaw"       -- a stranger holding one token of ANOTHER mint (C04)
+      else if auth = 3 || auth = 5 then pure "err ConstraintRaw"   -- a stranger holding one token of ANOTHER mint; an EMPTY account of the position mint (C04)
       else
         let big := U128_MAX
         match histStep { s with vaultA := big, vaultB := big } (.modify id liq inc) with
@@ -304,7 +304,7 @@ def xliqtLine (s : HistState) (t : List String) : Option String :=
       if authN = 2 then pure "err AccountNotSigner"
       else if authN = 1 then pure "err MissingOrInvalidDelegate"
       else if authN = 4 then pure "err ConstraintAddress"   -- the position belongs to another pool (C15)
-      else if authN = 3 then pure "err ConstraintRaw"       -- a stranger holding one token of ANOTHER mint (C04)
+      else if authN = 3 || authN = 5 then pure "err ConstraintRaw"   -- a stranger holding one token of ANOTHER mint; an EMPTY account of the position mint (C04)
       else if s.pool.price < minP || s.pool.price > maxP then pure "err PriceSlippageOutOfBounds"
       else
         match estimateMaxLiquidity s.pool.price pos.lower pos.upper (excludedAmount fA tA).1 (excludedAmount fB tB).1 with
@@ -363,6 +363,7 @@ def xlockLine (s : HistState) (t : List String) : Option String :=
       if auth = 2 then pure "err AccountNotSigner"
       else if auth = 3 || auth = 4 then pure "err ConstraintSeeds"   -- lock config / mint not the position's (C15)
       else if auth = 5 then pure "err ConstraintHasOne"             -- the position belongs to another pool (C15)
+      else if auth = 6 then pure "err ConstraintRaw"                -- an EMPTY account of the position mint (C04)
       else if auth = 1 then pure "err MissingOrInvalidDelegate"
       else if pos.liq = 0 then pure "err PositionNotLockable"
       else if follow == "none" then pure "ok none ok"
@@ -396,6 +397,7 @@ def xrewLine (s : HistState) (t : List String) : Option String :=
     let r := s.pool.rewards.getD idx {}
     if idx ≥ 3 || (kind != "cproto" && !r.initialized) then pure "err RewardNotInitialized"
     else if kind == "crew" && (posGet s.positions id).isNone then pure "err NoSuchPosition"
+    else if auth = 5 then pure (if kind == "crew" then "err ConstraintRaw" else "err NotAVariant")   -- an EMPTY account of the position mint (C04)
     else if auth ≥ 3 then pure "err ConstraintAddress"   -- a copy of the vault at another address (C15)
     else if kind == "emis" then
       if auth = 2 then pure "err AccountNotSigner"
@@ -461,7 +463,7 @@ def xrepoLine (s : HistState) (t : List String) : Option String :=
       else if auth = 2 then pure "err AccountNotSigner"
       else if auth = 1 then pure "err MissingOrInvalidDelegate"
       else if auth = 4 then pure "err ConstraintAddress"   -- the position belongs to another pool (C15)
-      else if auth = 3 then pure "err ConstraintRaw"       -- a stranger holding one token of ANOTHER mint (C04)
+      else if auth = 3 || auth = 5 then pure "err ConstraintRaw"   -- a stranger holding one token of ANOTHER mint; an EMPTY account of the position mint (C04)
       else
         let big := U128_MAX
         let s0 := { s with vaultA := big, vaultB := big }
@@ -550,7 +552,7 @@ def xposLine (s : HistState) (t : List String) : Option String :=
     | some pos =>
       if auth = 2 then pure "err AccountNotSigner"
       else if auth = 5 then pure "err ConstraintHasOne"
-      else if auth = 6 then pure "err ConstraintRaw"
+      else if auth = 6 || auth = 7 then pure "err ConstraintRaw"
       else if auth = 1 then pure "err MissingOrInvalidDelegate"
       else if auth = 4 then pure "err InvalidPositionTokenAmount"
       else if kind == "upd" then
